@@ -83,6 +83,7 @@ FAMILIES = {
     "results": {"module": "MC_FuncResults", "judge": "FuncResultsTrace"},
     "universe": {"module": "MC_Universe", "judge": "UniverseTrace"},
     "dispatch": {"module": "Dispatch", "judge": "DispatchTrace"},
+    "sumfile": {"module": "MC_SumFile", "judge": "SumFileTrace"},
     "pipeline": {"module": "MC_PipelineHist", "judge": "PipelineTrace", "by_history": True},
     "genfile": {"module": "GenFile", "judge": "GenFileTrace"},
     "partial": {"module": "MC_PartialStruct", "judge": "PartialStructTrace"},
@@ -387,13 +388,13 @@ PIPELINE_ASSUME = [
 ]
 
 
-def pipeline_check(ctx, menu, rule, nontrivial, rand_n=0, extra_gen=(), only=None):
+def pipeline_check(ctx, menu, rule, nontrivial, rand_n=0, extra_gen=(), only=None, extra_fails=(), extra_lines=0):
     t = ctx.tier
     for cfg in PIPELINE_A[t]:
         vlib.tlc_check(ctx, "MC_Pipeline", cfg, workers=vlib.NCPU, timeout=2400)
     gens = ["PipelineHist_%s_%s.cfg" % (menu, t)] + list(extra_gen)
     res = run_family(ctx, "pipeline", "MC_PipelineHist", gens, "PipelineTrace", rand_n=rand_n, shard=6000, by_history=True, exec_timeout=7200)
-    fails = vlib.collect_failures(res["trace"], res["bad"], "pipeline", only_prefix=only or ctx.prop, cases=res["cases"])
+    fails = list(extra_fails) + vlib.collect_failures(res["trace"], res["bad"], "pipeline", only_prefix=only or ctx.prop, cases=res["cases"])
     tr = res["trace"]
     runs = [r for r in tr if r["case"]["step"]["op"] == "run"]
     hists = {r["cid"] for r in tr}
@@ -404,6 +405,7 @@ def pipeline_check(ctx, menu, rule, nontrivial, rand_n=0, extra_gen=(), only=Non
         "rule": rule,
         "exhaustive": True,
         "histories": len(hists),
+        "other_family_lines": extra_lines,
         "steps": len(tr),
         "runs_executed": len(runs),
         "runs_failed_or_died": sum(1 for r in runs if r["obs"]["failed"] or r["obs"]["died"]),
@@ -416,14 +418,17 @@ def pipeline_check(ctx, menu, rule, nontrivial, rand_n=0, extra_gen=(), only=Non
 
 
 def check_C08(ctx):
+    # the file format on its own: every mapping written and read back, every list of damaged lines loaded
+    sf = run_family(ctx, "sumfile", "MC_SumFile", ["SumFile_genSave.cfg", "SumFile_genLoad.cfg"], "SumFileTrace", a_cfgs=["SumFile_A.cfg"], shard=4000)
+    extra = vlib.collect_failures(sf["trace"], sf["bad"], "sumfile", only_prefix="C08")
     return pipeline_check(ctx, "C08",
         "Loop A: Pipeline.tla (one action per critical section of Execute/pkgExecute, lazy fault choice, nondeterministic write/remove order, environment "
         "actions between runs) checked exhaustively per layout. Loop B: PipelineHist.tla enumerates every history prefix.tail with prefix in {fresh, generated twice} and "
         "tail up to the tier bound over 17 steps {run All / Force / subset / non-All / failing, edit, add/delete user file, delete output, delete or corrupt gengo.sum "
         "(4 kinds)} in three layouts (siblings, nested, root package) x 2 behaviour configurations; each history is executed on a real module tree, every run in a fresh process. "
         "evaluations = runs executed; non-trivial = histories containing an environment action between two runs.",
-        lambda r: True if any(s["op"] != "run" for s in []) else r["case"]["k"] > 1,
-        rand_n=150 if ctx.quick() else 3000)
+        lambda r: r["case"]["k"] > 1,
+        rand_n=150 if ctx.quick() else 3000, extra_fails=extra, extra_lines=len(sf["trace"]))
 
 
 def check_C02(ctx):
